@@ -176,31 +176,57 @@ func (w *zzvCtlWorld) dirs() map[string]*zzvDir {
 	return out
 }
 
-// backlog: per agent, frames handed to its connections minus frames its processFrame has finished.  Handlers
-// write their own frames before they finish, so "backlog == base everywhere and nothing held" means that no
-// frame is in flight or being processed anywhere: an exact (not time based) notion of a quiet network.
-func (w *zzvCtlWorld) backlog() map[string]int64 {
-	out := map[string]int64{}
+// Exact (not time based) notion of a quiet network.  Per agent: frames handed to its connections minus frames
+// its processFrame has finished ("backlog").  Handlers write their own frames before they finish, so a frame in
+// flight or being processed anywhere shows as backlog > base at some agent at every instant.  The counters are
+// read one after the other, so quiet() takes two collects and requires them to be identical and balanced: then
+// there was an instant between them at which all counters had those values, i.e. the network was quiet, and a
+// quiet network stays quiet until the harness acts.
+type zzvCtlCounters struct {
+	held  int
+	deliv map[string]int64
+	done  map[string]int64
+}
+
+func (w *zzvCtlWorld) counters() zzvCtlCounters {
+	c := zzvCtlCounters{deliv: map[string]int64{}, done: map[string]int64{}}
 	for ln, d := range w.dirs() {
 		d.mu.Lock()
-		out[ln[1:]] += int64(d.nDeliv)
+		c.deliv[ln[1:]] += int64(d.nDeliv)
+		c.held += len(d.pending)
 		d.mu.Unlock()
 	}
 	for _, n := range zzvCtlAgents {
-		out[n] -= w.m.Net.DoneCount(n)
+		c.done[n] = w.m.Net.DoneCount(n)
+	}
+	return c
+}
+
+func (w *zzvCtlWorld) backlog() map[string]int64 {
+	c := w.counters()
+	out := map[string]int64{}
+	for _, n := range zzvCtlAgents {
+		out[n] = c.deliv[n] - c.done[n]
 	}
 	return out
 }
 
 func (w *zzvCtlWorld) quiet() bool {
-	for _, d := range w.dirs() {
-		if len(d.held()) > 0 {
+	c1 := w.counters()
+	if c1.held != 0 {
+		return false
+	}
+	for _, n := range zzvCtlAgents {
+		if c1.deliv[n]-c1.done[n] != w.base[n] {
 			return false
 		}
 	}
-	b := w.backlog()
+	c2 := w.counters()
+	if c2.held != 0 {
+		return false
+	}
 	for _, n := range zzvCtlAgents {
-		if b[n] != w.base[n] {
+		if c1.deliv[n] != c2.deliv[n] || c1.done[n] != c2.done[n] {
 			return false
 		}
 	}
